@@ -26,9 +26,10 @@ import (
 // Flags is one configuration of the redact command's value-redaction flags.
 type Flags struct {
 	N, B, I, W bool
-	R          *string // --replacement (nil = default "REDACTED")
-	F          string  // --redactFieldNames prefix ("" = off)
-	Z          string  // --redactFieldsRegexp ("" = off)
+	R          *string  // --replacement (nil = default "REDACTED")
+	F          string   // --redactFieldNames prefix ("" = off)
+	FMore      []string // further --redactFieldNames values (the flag may be repeated); given around F
+	Z          string   // --redactFieldsRegexp ("" = off)
 	Enc        bool
 }
 
@@ -58,6 +59,9 @@ func (f Flags) String() string {
 	}
 	if f.F != "" {
 		p = append(p, "-f="+f.F)
+	}
+	for _, m := range f.FMore {
+		p = append(p, "-f="+m)
 	}
 	if f.Z != "" {
 		p = append(p, "-z="+f.Z)
@@ -103,8 +107,18 @@ func (f Flags) Args(variant int, keyFile string) []string {
 			a = append(a, "-r", *f.R)
 		}
 	}
+	for i, m := range f.FMore {
+		if i%2 == 0 {
+			add("f", "redactFieldNames", m)
+		}
+	}
 	if f.F != "" {
 		add("f", "redactFieldNames", f.F)
+	}
+	for i, m := range f.FMore {
+		if i%2 == 1 {
+			add("f", "redactFieldNames", m)
+		}
 	}
 	if f.Z != "" {
 		add("z", "redactFieldsRegexp", f.Z)
